@@ -2,6 +2,7 @@
 # One-off build after a fresh restore (offline): Coq development (full .vo build) + extracted model driver.
 set -e
 ROOT="$(cd "$(dirname "$0")/.." && pwd)"
+python3 "$ROOT/tools/translate.py"
 cd "$ROOT/coq"
 coq_makefile -f _CoqProject -o Makefile > /dev/null
 timeout 3000 make -j16
